@@ -242,6 +242,9 @@ func c06One(ws *c06Worlds, c c06Case) (string, string) {
 	if c.Cmd == "HandshakeAfterHistory" {
 		return c06Handshake(c)
 	}
+	if c.Cmd == "HandshakeName" {
+		return c06HandshakeName(c)
+	}
 	for _, mode := range []string{"sessionless", "insession", "insession-retried"} {
 		w, conn := ws.less, bmc.Connection(ws.less.Conn)
 		if mode != "sessionless" {
@@ -411,6 +414,12 @@ func runC06(r *rep.R) {
 			}
 		}
 	}
+	// user names as they reach the wire through NewV2Session
+	for i := range c06HSNames() {
+		for lk := int64(0); lk < 2; lk++ {
+			do("HandshakeName", int64(i), lk)
+		}
+	}
 	// RMCP+ setup payloads
 	for tag := int64(0); tag < 256; tag++ {
 		do("OpenSessionReq", tag, tag%16, 1, 1, 1, 1)
@@ -483,6 +492,59 @@ func c06Handshake(c c06Case) (string, string) {
 			return "C06/HandshakeAfterHistory/malformed/" + rx.Name, fmt.Sprintf("after history kind %d, handshake datagram %d (%s, user name length %d) is malformed: %s; bytes % x", v[0], i, rx.Name, v[1], strings.Join(rx.Problems, "; "), rx.Raw)
 		}
 	}
+	return "", ""
+}
+
+// c06HSNames: user names given to NewV2Session: white space and control
+// characters at the ends and inside, multi-byte text, boundary lengths 15..18.
+func c06HSNames() []string {
+	out := append([]string{}, c06Names[:10]...)
+	for _, core := range []string{"operator", "a", "", "sixteen_bytes_xx", "fifteen_bytes_x", "seventeen_bytes_x"} {
+		for _, pre := range []string{"", " ", "\t", "\n"} {
+			for _, suf := range []string{"", " ", "\n", "\r\n", "  "} {
+				out = append(out, pre+core+suf)
+			}
+		}
+	}
+	out = append(out, "admin"+strings.Repeat(" ", 11), "admin"+strings.Repeat(" ", 12), "in ner", "UPPER", "MiXed", "x\x7f", "\xa0nbsp\xa0")
+	return out
+}
+
+// c06HandshakeName: the user name in RAKP Message 1 as sent by NewV2Session
+// must be the caller's, byte for byte; a name of more than 16 bytes is an
+// error and nothing naming a shortened user reaches the BMC. v = [name, lookup].
+func c06HandshakeName(c c06Case) (string, string) {
+	name := c06HSNames()[c.V[0]]
+	cfg := histConfig(ref.Suite{Auth: 1, Integ: 1, Conf: 1})
+	cfg.Username, cfg.CheckUser = []byte(name), true
+	w := newWorld(cfg, nil, nil)
+	var s *bmc.V2Session
+	var err error
+	p := guard(func() {
+		s, err = w.Conn.NewV2Session(w.Ctx, &bmc.V2SessionOpts{SessionOpts: bmc.SessionOpts{Username: name, Password: cfg.Password, MaxPrivilegeLevel: ipmi.PrivilegeLevelOperator}, PrivilegeLevelLookup: c.V[1] != 0, CipherSuites: []ipmi.CipherSuite{ipmi.CipherSuite3}})
+	})
+	if p != "" {
+		return "C06/HandshakeName/panic", p
+	}
+	var sent []string
+	for _, rx := range w.BMC.Log {
+		if rx.Name == "RAKP Message 1" && len(rx.Pkt.Payload) >= 28 {
+			sent = append(sent, string(rx.Pkt.Payload[28:]))
+		}
+	}
+	if len(name) > 16 {
+		if err == nil || len(sent) > 0 {
+			return "C06/HandshakeName/oversized-username-not-rejected", fmt.Sprintf("user name %q (%d bytes): err=%v, RAKP Message 1 sent naming %q", name, len(name), err, sent)
+		}
+		return "", ""
+	}
+	if len(sent) == 0 || sent[0] != name {
+		return "C06/HandshakeName/username-altered", fmt.Sprintf("user name %q (%d bytes) reached the BMC as %q (err=%v)", name, len(name), sent, err)
+	}
+	if err != nil {
+		return "C06/HandshakeName/handshake-failed", fmt.Sprintf("user name %q: %v; BMC saw %v", name, err, problemsOf(w.BMC))
+	}
+	s.Close(w.Ctx)
 	return "", ""
 }
 
